@@ -69,6 +69,9 @@ type testCase struct {
 	// Hold names a forced interleaving: "evict-after-collect" parks a concurrent Evict between its
 	// getTask loop and dirty.Lock() until the concurrent Run has returned.
 	Hold string `json:"hold,omitempty"`
+	// PanicAlways: a panicking query panics even when one of its Resolve calls returned an error (the Run is
+	// already cancelled by an earlier panic). Replay only: IncExec's queries return that error instead.
+	PanicAlways bool `json:"panic_always,omitempty"`
 }
 
 type mismatch struct {
@@ -141,6 +144,9 @@ func (n node) Execute(t *incremental.Task) (int, error) {
 		}
 		res, err := incremental.Resolve(t, qs...)
 		if err != nil {
+			if w.pan[n.name] && w.tc.PanicAlways {
+				panic("boom:" + n.name)
+			}
 			return 0, err
 		}
 		for i, r := range res {
@@ -712,7 +718,7 @@ func (r *runner) checkRun(tc *testCase, w *world, step int, op planOp, e expOp, 
 		flags := w.flags[label]
 		w.mu.Unlock()
 		if o.pv != nil {
-			add(step, "run:panicked", fmt.Sprintf("Run panicked: %v", o.pv))
+			add(step, "panic-escapes-run", fmt.Sprintf("a panic escaped from Run instead of being returned as an error: %v", o.pv))
 			continue
 		}
 		cls, info := classOf(o.err)
@@ -861,7 +867,11 @@ func main() {
 			gateLevel.Store(int32((rep + int(*seed)) % 3))
 			gateSeed = mix(*seed*1000003 + uint64(tc.ID)*131 + uint64(rep))
 			res, events := r.runCase(&tc, rep)
+			if tc.PanicAlways {
+				res.Traced = false // not a behaviour of the model's queries
+			}
 			_ = enc.Encode(res)
+			ow.Flush() // one line per finished execution: if the process dies the engine knows which case was running
 			if res.Hang {
 				nhang++
 			}
